@@ -57,6 +57,10 @@ func levelAModels(thorough bool) []sysCfg {
 	}
 	if thorough {
 		ms = []sysCfg{
+			// a successful `crunch-run --kill` whose answer arrives after the instance disappeared from the
+			// cloud listing (Pool.sync removed and closed the worker meanwhile)
+			{Name: "1c-1i-latekill", MaxCtr: 1, Cap: 1, Types: "A", Prios: "1", Events: "cancel gone slow-kill", Budget: 2, Depth: 12},
+			{Name: "1c-1i-hold-p3", MaxCtr: 1, Cap: 1, Types: "A", Prios: "1", Events: "prio0 prio1 linger killfail", Budget: 2, Depth: 18, ProbeTicks: 3},
 			{Name: "1c-1i-f2", MaxCtr: 1, Cap: 1, Types: "A", Prios: "1", Events: user + allFaults + allSlow, Budget: 2, Depth: 14},
 			{Name: "1c-pre-f2", MaxCtr: 1, Cap: 1, Types: "A", Prios: "1", PreInst: "A", Events: "cancel crash restart" + slowCore, Budget: 2, Depth: 12},
 			{Name: "2c-1i-f0", MaxCtr: 2, Cap: 1, Types: "A", Prios: "12", Events: user, Budget: 0, Depth: 14},
@@ -64,12 +68,8 @@ func levelAModels(thorough bool) []sysCfg {
 			{Name: "3c-2i-f0", MaxCtr: 3, Cap: 2, Types: "A", Prios: "12", Events: "cancel", Budget: 0, Depth: 10},
 			{Name: "1c-1i-poll", MaxCtr: 1, Cap: 1, Types: "A", Prios: "1", Events: "wait createquota crash slow-poll-mine slow-poll-queued slow-poll-missing", Budget: 2, Depth: 16},
 			{Name: "2c-2i-poll3", MaxCtr: 2, Cap: 2, Types: "A", Prios: "12", Events: "createquota slow-poll-queued slow-poll-mine", Budget: 2, Depth: 18, PollTicks: 3},
-			// a successful `crunch-run --kill` whose answer arrives after the instance disappeared from the
-			// cloud listing (Pool.sync removed and closed the worker meanwhile)
-			{Name: "1c-1i-latekill", MaxCtr: 1, Cap: 1, Types: "A", Prios: "1", Events: "cancel gone slow-kill", Budget: 2, Depth: 12},
 			{Name: "1c-1i-hold2", MaxCtr: 1, Cap: 1, Types: "A", Prios: "1", Events: "prio0 prio1 cancel linger killfail hang restart slow-kill slow-list", Budget: 2, Depth: 18},
 			{Name: "2c-1i-requeue2", MaxCtr: 2, Cap: 1, Types: "A", Prios: "12", Events: "cancel prio0 prio1 linger killfail", Budget: 2, Depth: 12},
-			{Name: "1c-1i-hold-p3", MaxCtr: 1, Cap: 1, Types: "A", Prios: "1", Events: "prio0 prio1 linger killfail", Budget: 2, Depth: 18, ProbeTicks: 3},
 		}
 	}
 	return ms
@@ -120,7 +120,10 @@ func TestVerifC14A(t *testing.T) {
 		}
 		models = []sysCfg{c}
 	}
-	capS := 150
+	// wall-clock cap of the search (never reached on an idle machine, where the quick models take well
+	// under a minute; on a heavily loaded one the models are cut from the expensive end of the list and the
+	// report says "not exhaustive")
+	capS := 300
 	if vrep.Thorough() {
 		capS = 840
 	}
